@@ -411,11 +411,13 @@ package prunner
 //@   at call (*PipelineRunner).cancelJobInternal#1: ghost $failFastIssued := true
 //@   assumes  [noPending] !$failFastIssued
 //@   ensures  [T] Tjobs()
+//@   ensures  [C11.persist] same("jobTask.*") || $persist
 //@   ensures  [defs] r.defs == old(r.defs)
 
 //@ func (*PipelineRunner).HandleStageChange
 //@   lockmode none
 //@   ensures  [T] Tjobs()
+//@   ensures  [C11.persist] same(jobTask.Status) || $persist
 //@   ensures  [defs] r.defs == old(r.defs)
 //@   ensures  [lists] same("map(map[string][]*PipelineJob)") && same("map(map[uuid.UUID]*PipelineJob)") && same(PipelineJob.Start) && same(PipelineJob.Canceled) && same(PipelineJob.Completed)
 //@   modifies jobTask.Status, $persist, $clock
